@@ -531,6 +531,9 @@ impl chain::Listen for Watcher {
         let mut locator_cache = self.locator_cache.lock().unwrap();
         locator_cache.update(*header, &locator_tx_map);
 
+        // Whatever bitcoind said about a penalty before this block may not hold anymore
+        self.responder.forget_receipts();
+
         // Get the breaches found in this block, handle them, and delete invalid ones.
         if let Some(invalid_breaches) = self.handle_breaches(self.get_breaches(locator_tx_map)) {
             self.gatekeeper.delete_appointments(invalid_breaches, false);
